@@ -466,7 +466,7 @@ pub fn def() -> PropDef {
             name: "embed",
             rule: "metamorphic: 1..2 generated functions of k<=3 variables are embedded at generated positions into n<=8 variables (ESOP n<=5); the optimizers must return valid forms whose cost equals the exact optimum of the small functions (dummy variables never lower or raise the optimum). Reaches sizes (n = 5..8, variables >= 6, multi-word tables) where the exact DP itself is out of reach.",
             strategy: strategy_embed,
-            cases: (300, 6_000),
+            cases: (200, 6_000),
             exhaustive: None,
             exhaustive_note: "",
             run: run_embed,
@@ -474,7 +474,7 @@ pub fn def() -> PropDef {
             name: "optimum",
             rule: "see property rule",
             strategy,
-            cases: (250, 8_000),
+            cases: (150, 8_000),
             exhaustive: Some(enumerate),
             exhaustive_note: "all single functions n<=2 (quick) / n<=3 (thorough); all ordered pairs n<=1 / n<=2; 3 optimizers",
             run,
